@@ -325,21 +325,20 @@ theorem execute_lazy_frame (name : Bytes) (plan : Plan) (w : World) :
 theorem execute_payload (dest : Dest) (w : World) (pt : Bytes) (n : Nat)
     (hb : dest = .buffered → w.stdout = .terminal) :
     (execute dest (.dec (.ok pt (some n))) w).exit = 1 ∧
-    (execute dest (.dec (.ok pt (some n))) w).stdout <+: pt ∧
+    (execute dest (.dec (.ok pt (some n))) w).stdout <+: pt.take n ∧
     ∀ u, (execute dest (.dec (.ok pt (some n))) w).world.get u = w.get u ∨
-      ∃ c m, (execute dest (.dec (.ok pt (some n))) w).world.get u = .file c m ∧ c <+: pt := by
+      ∃ c m, (execute dest (.dec (.ok pt (some n))) w).world.get u = .file c m ∧ c <+: pt.take n := by
   rw [execute_eq_deliver]
   simp only [Plan.stream]
-  have htake : pt.take n <+: pt := List.take_prefix n pt
   cases dest with
   | stdout =>
     obtain ⟨hw, h⟩ := deliver_stdout w (pt.take n) true false
     refine ⟨?_, ?_, fun u => Or.inl (by rw [hw])⟩
     · cases hso : w.stdout <;> rw [hso] at h <;> simp [h.2]
     · cases hso : w.stdout with
-      | terminal => rw [hso] at h; rw [h.1]; exact htake
+      | terminal => rw [hso] at h; rw [h.1]; exact List.prefix_refl _
       | devFull => rw [hso] at h; rw [h.1]; exact List.nil_prefix
-      | limited cap => rw [hso] at h; rw [h.1]; exact (accept_prefix cap 0 _).trans htake
+      | limited cap => rw [hso] at h; rw [h.1]; exact accept_prefix cap 0 _
   | buffered =>
     obtain ⟨hw, h1, h2⟩ := deliver_buffered w (pt.take n) true false (hb rfl)
     refine ⟨by simp [h2], by rw [h1]; exact List.nil_prefix, fun u => Or.inl (by rw [hw])⟩
@@ -352,7 +351,7 @@ theorem execute_payload (dest : Dest) (w : World) (pt : Bytes) (n : Nat)
     · refine ⟨by simp [he], by rw [h0]; exact List.nil_prefix, fun u => ?_⟩
       by_cases hu : u = t
       · subst hu
-        exact Or.inr ⟨_, m, hgt, (accept_prefix _ 0 _).trans htake⟩
+        exact Or.inr ⟨_, m, hgt, accept_prefix _ 0 _⟩
       · exact Or.inl (hfr u hu)
 
 /-- an output that cannot be created or cannot take the whole result: non-zero exit -/
